@@ -10,7 +10,10 @@ Next == /\ l <= Len(Rec)
                truth == [cdps |-> t.rdhs_seen, pht |-> t.trig[4], version |-> t.rdh_version, chips |-> ev.chips, order |-> ev.order]
                exp == ExpectedCodes(ev.cfg, truth, ev.stave)
                obs == {ev.codes[i] : i \in 1..Len(ev.codes)} \cap Watched
-           IN IF exp = obs THEN TRUE ELSE PrintT("REJECT " \o ToJson([l |-> l, tag |-> "codes", expected |-> exp, observed |-> obs]))
+           IN /\ IF exp = obs THEN TRUE ELSE PrintT("REJECT " \o ToJson([l |-> l, tag |-> "codes", expected |-> exp, observed |-> obs]))
+              \* the streams are conforming: the any-errors exit status (77) is returned exactly when a configured check fails
+              /\ IF ev.rc = (IF exp = {} THEN 0 ELSE 77) THEN TRUE
+                 ELSE PrintT("REJECT " \o ToJson([l |-> l, tag |-> "exit", expected |-> (IF exp = {} THEN 0 ELSE 77), observed |-> ev.rc]))
         /\ l' = l + 1
 Spec == Init /\ [][Next]_l
 Accepted == IF TLCGet("stats").diameter - 1 = Len(Rec) THEN TRUE
